@@ -572,8 +572,10 @@ package flags
 // are exactly the sorted visible subcommands of the innermost command; the
 // nearest one is suggested iff its distance is below half its length (the
 // float32 quotient is modelled over the reals), otherwise all are enumerated.
+// (C15: the candidate list handed to closestChoice, which keeps the first of
+// several nearest ones, is that sorted list in its order - no map order.)
 //@ func (p *parseState) estimateCommand() (err error)
-//@   props C20 C08 C04
+//@   props C20 C08 C04 C15
 //@   traced
 //@   requires p != nil && p.command != nil
 //@   let sv0 := ncalls(Command.sortedVisibleCommands)
@@ -584,8 +586,8 @@ package flags
 //@   ensures[C08] len(p.retargs) == 0 ==> as(err, *Error).Type == ErrCommandRequired
 //@   ensures[C20,C08] ncalls(Command.sortedVisibleCommands) == sv0 + 1 && callarg(Command.sortedVisibleCommands, sv0, 0) == p.command
 //@   ensures[C20] len(p.retargs) == 0 ==> ncalls(closestChoice) == cc0
-//@   ensures[C20] len(p.retargs) != 0 ==> ncalls(closestChoice) == cc0 + 1 && callarg(closestChoice, cc0, 0) == p.retargs[0] && len(callarg(closestChoice, cc0, 1)) == len(callres(Command.sortedVisibleCommands, sv0, 0))
-//@   ensures[C20] len(p.retargs) != 0 ==> forall(i, 0, len(callres(Command.sortedVisibleCommands, sv0, 0)), callarg(closestChoice, cc0, 1)[i] == callres(Command.sortedVisibleCommands, sv0, 0)[i].Name)
+//@   ensures[C20,C15] len(p.retargs) != 0 ==> ncalls(closestChoice) == cc0 + 1 && callarg(closestChoice, cc0, 0) == p.retargs[0] && len(callarg(closestChoice, cc0, 1)) == len(callres(Command.sortedVisibleCommands, sv0, 0))
+//@   ensures[C20,C15] len(p.retargs) != 0 ==> forall(i, 0, len(callres(Command.sortedVisibleCommands, sv0, 0)), callarg(closestChoice, cc0, 1)[i] == callres(Command.sortedVisibleCommands, sv0, 0)[i].Name)
 //@   ensures[C20] len(p.retargs) != 0 && 2*callres(closestChoice, cc0, 1) < len(callres(closestChoice, cc0, 0)) ==> as(err, *Error).Message == "Unknown command `" + p.retargs[0] + "', did you mean `" + callres(closestChoice, cc0, 0) + "'?"
 //@   ensures[C20] len(p.retargs) != 0 && 2*callres(closestChoice, cc0, 1) >= len(callres(closestChoice, cc0, 0)) && len(callres(Command.sortedVisibleCommands, sv0, 0)) > 1 ==> as(err, *Error).Message == "Unknown command `" + p.retargs[0] + "'. Please specify one command of: " + strings.Join(callarg(closestChoice, cc0, 1)[:len(callarg(closestChoice, cc0, 1))-1], ", ") + " or " + callarg(closestChoice, cc0, 1)[len(callarg(closestChoice, cc0, 1))-1]
 //@   ensures[C20] len(p.retargs) != 0 && 2*callres(closestChoice, cc0, 1) >= len(callres(closestChoice, cc0, 0)) && len(callres(Command.sortedVisibleCommands, sv0, 0)) == 1 ==> as(err, *Error).Message == "Unknown command `" + p.retargs[0] + "'. You should use the " + callres(Command.sortedVisibleCommands, sv0, 0)[0].Name + " command"
@@ -1016,8 +1018,10 @@ package flags
 //@   pure
 //@ assumed func bufio.Reader.ReadLine(b *bufio.Reader) (line []byte, isPrefix bool, err error)
 //@   traced
+//@   invalidates
 //@   ensures ncalls(bufio.Reader.ReadLine) <= readBound(b)
 //@   ensures !is(err, *Error) && !is(err, *IniError)
+//@   ensures len(line) > 0 ==> transient(line)
 //@ assumed func strings.SplitN(s string, sep string, n int) (r []string)
 //@   pure
 //@   ensures len(r) >= 1 && (n > 0 ==> len(r) <= n)
@@ -1025,8 +1029,14 @@ package flags
 //@   ensures n == 2 && len(r) == 2 ==> s == r[0] + sep + r[1]
 //@   ensures len(r) == 1 ==> r[0] == s
 
+// The text of a line is the concatenation of the pieces ReadLine returned for
+// it, each taken as it was when returned: a piece is only valid until the next
+// read ("invalidates"/transient), so it has to be copied before that.
+//@ pure func catChunks(a int, b int) string = ite(b <= a, "", catChunks(a, b-1) + string(callres(bufio.Reader.ReadLine, b-1, 0)))
 //@ func readFullLine(reader *bufio.Reader) (s string, err error)
-//@   props C14 C04
+//@   props C14 C04 C12
+//@   loop 1 invariant[C12] !transient(line) && unfold(catChunks(old(ncalls(bufio.Reader.ReadLine)), ncalls(bufio.Reader.ReadLine))) && string(line) == catChunks(old(ncalls(bufio.Reader.ReadLine)), ncalls(bufio.Reader.ReadLine))
+//@   ensures[C12] unfold(catChunks(old(ncalls(bufio.Reader.ReadLine)), ncalls(bufio.Reader.ReadLine))) && err == nil ==> s == catChunks(old(ncalls(bufio.Reader.ReadLine)), ncalls(bufio.Reader.ReadLine))
 //@   traced
 //@   requires reader != nil && ncalls(bufio.Reader.ReadLine) <= readBound(reader)
 //@   loop 1 invariant ncalls(bufio.Reader.ReadLine) <= readBound(reader)
@@ -1041,14 +1051,18 @@ package flags
 //@   ensures !is(err, *Error) && !is(err, *IniError)
 
 //@ func readIni(contents io.Reader, filename string) (r *ini, err error)
-//@   props C14 C04 C12
+//@   props C14 C04 C12 C13
+//@   nomerge
 //@   let l0 := ncalls(readFullLine) - nfails(readFullLine)
 //@   loop 1 invariant ret != nil && reader != nil && !isnil(ret.Sections) && ret.File == filename
 //@   loop 1 invariant lineno == (ncalls(readFullLine) - nfails(readFullLine)) - l0
 //@   loop 1 invariant exists(k, 0, len(ret.order), ret.order[k] == sectionname)
-//@   loop 1 invariant forall(n, string, indom(ret.Sections, n) ==> exists(k, 0, len(ret.order), ret.order[k] == n))
+//@   loop 1 invariant forall(n, string, indom(ret.Sections, n) == exists(k, 0, len(ret.order), ret.order[k] == n))
+//@   loop 1 invariant[C13] forall(n, string, indom(ret.Sections, n) ==> !isnil(ret.Sections[n]))
+//@   loop 1 invariant[C13] forall(j, 0, len(ret.order), forall(k, 0, j, ret.order[k] != ret.order[j]))
 //@   loop 1 invariant ncalls(bufio.Reader.ReadLine) <= readBound(reader)
 //@   loop 1 decreases readBound(reader) - ncalls(bufio.Reader.ReadLine)
+//@   ensures[C13] err == nil ==> forall(j, 0, len(r.order), forall(k, 0, j, r.order[k] != r.order[j]))
 //@   at[C14] call append #2: name == strings.TrimSpace(line[1 : len(line)-1]) && len(name) != 0
 //@   at[C12] call append #3: value == iniDecode(keyval[1]) && iniDecodeOK(keyval[1]) && name == strings.TrimSpace(keyval[0])
 //@   ensures[C14] err == nil ==> r != nil && !isnil(r.Sections) && r.File == filename
